@@ -1585,7 +1585,7 @@ fn main() {
         std::process::exit(r.finish());
     }
 
-    let n = args.n(5_000, 300_000);
+    let n = args.get_u64("programs", args.n(5_000, 300_000));
     let seed = args.seed;
     par_cases(&mut r, &args, n, |i, r| run_program(r, seed, i, max_ops, false));
 
